@@ -285,7 +285,8 @@ def schemas(draw, features: FrozenSet[str] = BASE_FEATURES, sizes: Sizes = QUICK
             s.groups.append(AGroup(g, items, note=draw(st.none() | note_text(F, True)),
                                    color=draw(st.none() | st.sampled_from(COLORS))))
     for n in draw(st.lists(names(F), max_size=sizes.stickies)):
-        s.stickies.append(ASticky(n, draw(note_text(F, True))))
+        # an empty sticky note is expressible (Note n { '' }) and is a falsy object
+        s.stickies.append(ASticky(n, draw(st.one_of(note_text(F, True), note_text(F, True), note_text(F, True), st.just('')))))
     if draw(st.integers(0, 2)) == 0:
         keys = draw(st.lists(prop_keys(F).filter(lambda k: not k.lower().startswith('note')
                                                   or _has(F, 'kw_prefix_name')), max_size=3, unique=True))
